@@ -298,7 +298,7 @@ def _dict_filled_from(fn, dict_name, producers):
     return None
 
 
-def _tower_merge(ctx, om, sf):
+def _tower_merge(ctx, om, sf, RULE='C18.R3'):
     """sanify_conf_kwargs_is_pep484_tower, interpreted over the abstract states of the user's hint_overrides."""
     from sa.fold import AObj, FuncVal, Sym, _Abort, _PyCallable, _Raise, _call_function
     from . import _gen
@@ -315,11 +315,19 @@ def _tower_merge(ctx, om, sf):
     tower = AFrozen({FLOAT: TF, COMPLEX: TC})
     saved = dict(F.stubs)
     F.stubs['beartype._conf._confoverrides._hint_overrides_pep484_tower'] = lambda e, a, k: tower
-    states = {
-        'none': {}, 'float-as-tower': {FLOAT: TF}, 'complex-as-tower': {COMPLEX: TC}, 'both-as-tower': {FLOAT: TF, COMPLEX: TC},
-        'unrelated': {X: Y}, 'unrelated+float-as-tower': {X: Y, FLOAT: TF},
-        'float-conflict': {FLOAT: OTHER}, 'complex-conflict': {COMPLEX: OTHER},
-    }
+    # every combination of {absent, restating the tower, conflicting} for float × complex, with and without an unrelated entry
+    states = {}
+    for fk, fv in (('absent', None), ('as-tower', TF), ('conflict', OTHER)):
+        for ck, cv in (('absent', None), ('as-tower', TC), ('conflict', OTHER)):
+            for uk in (False, True):
+                user = {}
+                if uk:
+                    user[X] = Y
+                if fv is not None:
+                    user[FLOAT] = fv
+                if cv is not None:
+                    user[COMPLEX] = cv
+                states[f'float-{fk}:complex-{ck}' + (':unrelated' if uk else '')] = user
     try:
         for nm, user in states.items():
             kw = {'hint_overrides': AFrozen(user), 'is_pep484_tower': True}
@@ -330,7 +338,7 @@ def _tower_merge(ctx, om, sf):
                 raised = getattr(ex.what, 'name', str(ex.what))
             except _Abort as ex:
                 ctx.require(False, f'cannot interpret sanify_conf_kwargs_is_pep484_tower: {ex}')
-            if nm.endswith('conflict'):
+            if 'conflict' in nm:
                 ok = raised == 'BeartypeConfParamException'
                 detail = f'raised {raised}; overrides afterwards {dict(kw["hint_overrides"])}'
             else:
@@ -338,7 +346,7 @@ def _tower_merge(ctx, om, sf):
                 got = dict(kw['hint_overrides'])
                 ok = raised is None and got == want
                 detail = f'raised {raised}; hint_overrides afterwards: {sorted(str(k) + "→" + str(v) for k, v in got.items())}'
-            ctx.ob('C18.R3', f'tower-merge:user-overrides={nm}', om.where(sf),
+            ctx.ob(RULE, f'tower-merge:user-overrides={nm}', om.where(sf),
                    'with is_pep484_tower the resulting overrides are the user\'s plus float → float | int and complex → '
                    'complex | float | int (a conflicting user entry for float / complex is rejected)', ok, detail)
     finally:
